@@ -471,13 +471,45 @@ func NewPowerLevelContentFromEvent(event PDU) (c PowerLevelContent, err error) {
 	return
 }
 
+// The members of a power levels content, by their exact names.
+var powerLevelMembers = []string{
+	"ban", "invite", "kick", "redact", "users", "users_default",
+	"events", "events_default", "state_default", "notifications",
+}
+
+// exactMembers reduces a JSON object to the members with exactly the given names.
+// encoding/json matches member names to struct fields case-insensitively (and folds
+// U+017F and U+212A onto s and k), so without this a member such as "Kick" or
+// "user\u017f" would be read as "kick" or merged into "users", while everything that
+// reads the content by name (other servers, clients, hashing, redaction) sees another
+// value. Anything that is not a JSON object is returned unchanged for the caller's
+// Unmarshal to report.
+func exactMembers(contentBytes []byte, names []string) []byte {
+	var all map[string]json.RawMessage
+	if err := json.Unmarshal(contentBytes, &all); err != nil {
+		return contentBytes
+	}
+	exact := make(map[string]json.RawMessage, len(names))
+	for _, name := range names {
+		if value, ok := all[name]; ok {
+			exact[name] = value
+		}
+	}
+	reduced, err := json.Marshal(exact)
+	if err != nil {
+		return contentBytes
+	}
+	return reduced
+}
+
 // parseIntegerPowerLevels unmarshals directly to PowerLevelContent, since that will kick up an
 // error if one of the power levels isn't an int64.
 func parseIntegerPowerLevels(contentBytes []byte, c *PowerLevelContent) error {
-	return json.Unmarshal(contentBytes, c)
+	return json.Unmarshal(exactMembers(contentBytes, powerLevelMembers), c)
 }
 
 func parsePowerLevels(contentBytes []byte, c *PowerLevelContent) error {
+	contentBytes = exactMembers(contentBytes, powerLevelMembers)
 	// We can't extract the JSON directly to the powerLevelContent because we
 	// need to convert string values to int values.
 	var content struct {
